@@ -112,6 +112,18 @@ CLAIMS = {
              "tables agree position-wise.",
         note="Partial: bit identity between variants and values of autograd-derived operators are not decided. "
              + TRUSTED),
+    "C17": dict(
+        technique="ast formula canonicalisation under both declarations with the embedding rewrite; index-level "
+                  "evaluation of the two product implementations on small symbolic tensors; read-site lint",
+        text="Structural part only: for every solver class accepting general noise and a special type, the step "
+             "evaluated through ForwardSDE's own per-noise-type dispatch tables under the special declaration equals the "
+             "step under the general declaration after the embedding rewrite (mat-vec with diag_embed(g) -> element-wise "
+             "product; Levy-area term -> 0), as a polynomial identity; prod_diagonal(g, v) == prod_default(diag_embed(g), v) "
+             "entry by entry on symbolic tensors; noise-type dependent attributes are never read on the solve path; the "
+             "default Brownian shape is the same under both declarations.",
+        note="Partial: decides these necessary conditions, not the floating-point equality of two runs (element-wise "
+             "product vs batched mat-vec round differently); the vanishing of the general Levy-area term for "
+             "commutative noise is the property's own premise. " + TRUSTED),
     "C18": dict(
         technique="ast formula canonicalisation of the four logqp integrands; sibling agreement; slicing lint",
         text="The integrand is 1/2 |g^+(f-h)|^2 in all four sibling implementations; f_and_g_X == (f_X, g_X); the "
@@ -130,12 +142,7 @@ CLAIMS = {
         note="Partial: user SDEs that mix rows are excluded by the property. " + TRUSTED),
 }
 
-NOT_APPLICABLE = {
-    "C17": "Equality of two floating-point evaluations (element-wise product vs batched mat-vec of the embedded "
-           "matrix) of user code under two declarations: no clause whose truth is in the shape of the library code; "
-           "'solver steps do not branch on noise type' is sufficient but not necessary, so a rule on it would alarm "
-           "on correct refactorings (DESIGN.md section C17).",
-}
+NOT_APPLICABLE = {}
 
 NOT_BUILT_REASON = ("static check designed (DESIGN.md section 4) but not built yet in this tree; not claimed until "
                     "its rule module exists and is silent on the unchanged tree")
